@@ -15,7 +15,7 @@ CLAIMED = {
 
 CLAIMED["C15"] = ("§3 C15",
     "CFG gate analysis (guard atoms with short-circuit polarity, rejecting-edge reachability) over CheckZip/checkFiles/Unzip/Create/checkPath/checkElem; constant-folded open flags; sibling obligation tables",
-    "Decides that every file-system mutation of Unzip lies behind the archive check and targets filepath.Join(dir, checked entry name); that in both sibling checkers each gating check (clean path, CheckFilePath, local-module, collision, cue.mod placement/case, size limits) stands on every path to acceptance and its rejecting edge skips the entry; that files are created only with O_CREATE|O_EXCL; that declared sizes are enforced by LimitedReader(size+1) with the exhaustion test before success; that CheckedFiles.Err consults every recorded error; and that the CheckFilePath chain rejects on each of its tests.",
+    "Decides that every file-system mutation of Unzip lies behind the archive check and targets filepath.Join(dir, checked entry name); that in both sibling checkers each gating check (clean path, CheckFilePath, local-module, collision, cue.mod placement/case, size limits) stands on every path to acceptance and its rejecting edge skips the entry; that files are created only with O_CREATE|O_EXCL; that declared sizes are enforced by LimitedReader(size+1) with the exhaustion test before success; that CheckedFiles.Err consults every recorded error; that the CheckFilePath chain rejects on each of its tests; that the case-fold key is iterated to the fixpoint of the fold orbit; and four agreement rules between the zip, file-list and directory checkers on cue.mod entries (every name with a special meaning under cue.mod is also tested with strings.EqualFold; the entry recorded as the module file and the not-a-directory rejection are reachable only across an edge on which the directory flag is false; submodule directories are collected by re-applying splitCUEMod to the prefix it returns) — the four defects these found were repaired in /repo (fix: a9a6766).",
     "archive/zip, io.LimitedReader and O_EXCL semantics trusted; which characters fileNameOK admits and Unicode case folding are value-level and not decided")
 
 CLAIMED["C14"] = ("§3 C14",
@@ -40,7 +40,7 @@ CLAIMED["C09"] = ("§3 C09",
 
 CLAIMED["C02"] = ("§3 C02",
     "parser rules of C09 + exhaustiveness of default-panic dispatchers over internal/core/adt interfaces + acquire/release pairing automata for evaluation frames + map-iteration order-leak classification and nondeterminism-source scan",
-    "Decides the parser bailout/recursion clauses (shared with C09), that every default-panic type-switch dispatcher of the evaluator, exporter, walker, dependency analysis and subsumption covers every implementor of the switched adt interface (or excepts it with a reachability reason), that PushState/PopState, PushArc/PopArc, pushOverlay/popOverlay, markDepth/unmarkDepth and incDepth/decDepth are balanced on every non-panicking path, that no map-iteration order, global random source, wall-clock time or pointer text reaches output in the pipeline packages, and that the Go slice expressions of SliceExpr.evaluate are dominated by the lo>hi rejection and the length test of a user-supplied upper bound. It does not decide nil dereferences, other index errors, evaluator recursion depth, or time/memory bounds.",
+    "Decides the parser bailout/recursion clauses (shared with C09), that every default-panic type-switch dispatcher of the evaluator, exporter, walker, dependency analysis and subsumption covers every implementor of the switched adt interface (or excepts it with a reachability reason), that PushState/PopState, PushArc/PopArc, pushOverlay/popOverlay, markDepth/unmarkDepth and incDepth/decDepth are balanced on every non-panicking path, that no map-iteration order, global random source, wall-clock time or pointer text reaches output in the pipeline packages, that the Go slice expressions of SliceExpr.evaluate are dominated by the lo>hi rejection and the length test of a user-supplied upper bound, that every inc/dec counter of the evaluator is balanced, and that every clause of internal/pkg.processErr for a non-nil error assigns the result from something that cannot be nil on every path (a failed Go builtin otherwise returns a nil expression and the evaluator crashes: json.Marshal({x: math.Sqrt(-1)}) did; repaired in /repo, fix: 2008161). It does not decide nil dereferences, other index errors, evaluator recursion depth, or time/memory bounds.",
     "value-dependent crashes are out of reach; comparator completeness of sorts is not decided")
 
 CLAIMED["C07"] = ("§3 C07",
@@ -50,7 +50,7 @@ CLAIMED["C07"] = ("§3 C07",
 
 CLAIMED["C10"] = ("§3 C10",
     "type-resolved who-may-produce-JSON-strings rule on the appendJSON path, CFG gates (IsConcrete, json.Valid, StringLabelNeedsQuoting), kind-case exhaustiveness, SetEscapeHTML-before-Encode ordering, no map iteration on the output path",
-    "Decides that string values and object keys become JSON text only through internal/encoding/json.Marshal (no HTML-escaping json.Marshal, no Go-syntax quoting), that every json.Encoder on the path sets EscapeHTML before Encode, that Value.appendJSON handles every concrete kind and rejects non-concrete values first, that the decoders return an expression only after json.Valid/Decode and the parser succeeded, that output iteration is index-wise, and that the importer unquotes a key only when StringLabelNeedsQuoting is false. It does not decide number spelling or escaping correctness.",
+    "Decides that string values and object keys become JSON text only through internal/encoding/json.Marshal (no HTML-escaping json.Marshal, no Go-syntax quoting), that every json.Encoder on the path sets EscapeHTML before Encode, that Value.appendJSON handles every concrete kind and rejects non-concrete values first, that the decoders return an expression only after json.Valid/Decode and the parser succeeded, that output iteration is index-wise, that the importer unquotes a key only when StringLabelNeedsQuoting is false, that the text of a number is appended only across an edge on which its Form was tested to be apd.Finite, and that no error is discarded in the literal parser cue/literal (every JSON number and string passes through it) outside five reviewed sites. The two defects these last rules found — Infinity/NaN marshalled with a nil error; exponents beyond apd's range silently dropped, so 1e100001 decoded as 1 — were repaired in /repo (fix: 1414251, deb83fd). It does not decide number spelling or escaping correctness in general.",
     "encoding/json.Encoder and apd number formatting are trusted")
 
 CLAIMED["C12"] = ("§3 C12",
